@@ -67,10 +67,13 @@ macro_rules! patch_attributes {
 /// So, after parsing is complete, we modify the AST in place, 'patching' in the information that can only now be
 /// computed.
 ///
-/// This function fails fast, so if any phase of patching fails, we skip any remaining phases.
+/// This function fails fast, so if parsing or any phase of patching fails, we skip any remaining phases.
+/// The only exception is the patching of attributes, which is always performed.
 pub unsafe fn patch_ast(compilation_state: &mut CompilationState) {
+    // Attributes are patched even if errors were already reported (in files that failed to parse): lints that were
+    // reported while parsing the other files can only be allowed by `allow` attributes that have been patched.
     let attribute_patcher = patch_attributes!("", Allow, Compress, Deprecated, Oneway, SlicedFormat);
-    compilation_state.apply_unsafe(attribute_patcher);
+    attribute_patcher(compilation_state);
     compilation_state.apply_unsafe(type_ref_patcher::patch_ast);
     compilation_state.apply_unsafe(comment_link_patcher::patch_ast);
 }
